@@ -8,6 +8,7 @@ package deployment
 import (
 	"context"
 	"fmt"
+	"time"
 
 	rolloutsv1alpha1 "github.com/openkruise/rollouts/api/v1alpha1"
 	deploymentutil "github.com/openkruise/rollouts/pkg/controller/deployment/util"
@@ -74,5 +75,79 @@ func VerifC17_ScaleReplicaSetStampsSizeAndSurge() {
 	} else {
 		// nothing written: size and stamps were already right
 		verifrt.Assert(cur == newScale && rs.Annotations[deploymentutil.ReplicasAnnotation] == fmt.Sprintf("%d", R), "C17.write.skippedOnlyWhenAlreadyRight")
+	}
+}
+
+// VerifC17_ScaleAbsorbsTheScalingEvent: a change of spec.replicas in the middle of a release is handled by scale(),
+// which spreads the difference over the active ReplicaSets — and which must leave *every* active ReplicaSet stamped
+// with the new size, also one whose share of the difference is zero.  isScalingEvent compares exactly that stamp: a
+// ReplicaSet left with the old one makes every later sync look like a scaling event again, rolloutRolling is never
+// reached, and the release never converges however the partition is raised.  (GetProportion — float rounding of a
+// symbolic quotient — is replaced by its contract: a share between 0 and what is still to be distributed.)
+func VerifC17_ScaleAbsorbsTheScalingEvent() {
+	maxR := verifrt.Bound("R", 50, 1000)
+	R := int32(verifrt.IntRange("R", 1, maxR))
+	Rold := int32(verifrt.IntRange("R.before", 1, maxR))
+	verifrt.Assume(R != Rold)
+	d := &apps.Deployment{ObjectMeta: metav1.ObjectMeta{Namespace: "ns", Name: "w"}}
+	d.Spec.Replicas = &R
+	ms := intstr.FromInt(verifrt.IntRange("maxSurge.int", 0, 10))
+	mu := intstr.FromInt(1)
+	strategy := rolloutsv1alpha1.DeploymentStrategy{RollingStyle: rolloutsv1alpha1.PartitionRollingStyle,
+		RollingUpdate: &apps.RollingUpdateDeployment{MaxSurge: &ms, MaxUnavailable: &mu}}
+	now := time.Now()
+	mk := func(name string, size int32, minute int) *apps.ReplicaSet {
+		rs := &apps.ReplicaSet{ObjectMeta: metav1.ObjectMeta{Namespace: "ns", Name: name, CreationTimestamp: metav1.NewTime(now.Add(time.Duration(minute) * time.Minute))}}
+		s := size
+		rs.Spec.Replicas = &s
+		rs.Status.Replicas, rs.Status.ReadyReplicas, rs.Status.AvailableReplicas = size, size, size
+		rs.Annotations = map[string]string{deploymentutil.ReplicasAnnotation: fmt.Sprintf("%d", Rold), deploymentutil.MaxReplicasAnnotation: fmt.Sprintf("%d", int(Rold)+int(ms.IntVal))}
+		return rs
+	}
+	// the release is under way: both ReplicaSets have pods, together the size before the scale event
+	oldSize := int32(verifrt.IntRange("old.replicas", 1, maxR))
+	newSize := int32(verifrt.IntRange("new.replicas", 1, maxR))
+	verifrt.Assume(oldSize+newSize == Rold)
+	oldRS, newRS := mk("rs-old", oldSize, 1), mk("rs-new", newSize, 2)
+	verifrt.Stub("github.com/openkruise/rollouts/pkg/controller/deployment/util.GetProportion", func(rs *apps.ReplicaSet, dd apps.Deployment, st *rolloutsv1alpha1.DeploymentStrategy, toAdd, added int32) int32 {
+		allowed := toAdd - added
+		if rs == nil || *(rs.Spec.Replicas) == 0 || toAdd == 0 || allowed == 0 {
+			return 0
+		}
+		p := int32(verifrt.IntRange("proportion", -int(maxR), int(maxR)))
+		if allowed > 0 {
+			verifrt.Assume(0 <= p && p <= allowed)
+		} else {
+			// the real share is round(size * new/old) - size: never below -size
+			verifrt.Assume(allowed <= p && p <= 0 && p >= -*(rs.Spec.Replicas))
+		}
+		return p
+	})
+	var written []*apps.ReplicaSet
+	dc := &DeploymentController{eventRecorder: record.NewFakeRecorder(10), strategy: strategy, client: c17Clientset{written: &written}}
+	err := dc.scale(context.TODO(), d, newRS, []*apps.ReplicaSet{oldRS})
+	verifrt.Assert(err == nil, "C17.scale.noerror")
+	if err != nil {
+		return
+	}
+	final := map[string]*apps.ReplicaSet{"rs-old": oldRS, "rs-new": newRS}
+	for _, w := range written {
+		final[w.Name] = w
+	}
+	total := int32(0)
+	for _, name := range []string{"rs-old", "rs-new"} {
+		rs := final[name]
+		total += *rs.Spec.Replicas
+		if *rs.Spec.Replicas > 0 {
+			verifrt.Assert(rs.Annotations[deploymentutil.ReplicasAnnotation] == fmt.Sprintf("%d", R), "C17.scale.everyActiveReplicaSetCarriesTheNewSize")
+		}
+	}
+	// (that the sizes add up to the new size depends on the exact rounding of the shares, which the contract stub
+	// does not reproduce; it is not claimed here)
+	_ = total
+	if R > Rold {
+		verifrt.Cover("scale-up")
+	} else {
+		verifrt.Cover("scale-down")
 	}
 }
